@@ -1,4 +1,4 @@
-EXTRA_IMPORTS = ["Combine", "MergeFull", "ShareFull", "ShareWeak", "ComposeInst", "ComposeFull", "MonSound", "ShareCS"]
+EXTRA_IMPORTS = ["Combine", "MergeFull", "ShareFull", "ShareWeak", "ComposeInst", "ComposeFull", "MonSound", "ShareCS", "FlatPlugSafe"]
 OPS += [("merge", "{α : Type} (n : Nat)", "Merge.machine α n", "MergeFull.merge_safe n s hs", "MergeFull")]
 SHARE = '''/-- `share`: proved for environments in which the source does not deliver from inside one of share's own deliveries
 (`noNestedFanout`, the restriction C12 makes in its own quantifier). -/
@@ -37,6 +37,12 @@ theorem C0%(n)d_closed_pipeline {S1 L1 S2 L2 α β γ : Type} {Msrc : Machine S1
     (hsrc : UpSide Msrc) (hmid : Pipeable Mmid) :
     ∀ s, SReach (compose (compose Msrc Mmid) (ForEach.machine γ)) s → SafeFor %(n)d s :=
   fun s hs => (ComposeFull.closed_pipeline_full hsrc hmid s hs).1.safeFor %(n)d
+
+/-- `flatten(map(g)(outer))` as a network (`Ops/FlatPlug.lean`: the outer source and every dynamically created inner source are closed
+head-capable sources), alone or heading a closed pipeline: C0%(n)d in full -/
+theorem C0%(n)d_flatten_network {So Lo Si Li αo αi : Type} {Mo : Machine So Lo αo Int} {Mi : Machine Si Li αi Int} {initOf : Int → Si}
+    (H : FlatPlugSafe.HypF Mo Mi initOf) : ∀ s, SReach (flatPlug Mo Mi initOf) s → SafeFor %(n)d s :=
+  fun s hs => (FlatPlugSafe.flatPlug_safe H s hs).1.safeFor %(n)d
 
 /-- `pipe!(from_iter(it), stages…)` as a source, against every conformant sink: C0%(n)d in full -/
 theorem C0%(n)d_fromIter_pipeline {ι α α' β S L : Type} (next : ι → Option (α × ι)) (it0 : ι) {Mmid : Machine S L α β}
